@@ -4,7 +4,7 @@
    taking hints in their type form) on top of Model/SessionMerge.v / SessionMergeTyped.v.
    `flag_denotes f b`: f is what a truthful caller passes for the truth value b in one of these forms. *)
 From Coq Require Import ZArith List Bool Lia.
-From EV Require Import Res Arr Join JoinSpec MapStream SessionMerge SessionMergeSpec SessionMergeTyped FlagForm FlagFormP
+From EV Require Import Res Arr Join JoinSpec MapStream SessionMerge SessionMergeSpec SessionMergeTyped SessionMergeTypedP FlagForm FlagFormP
   SessionMergeInner SessionMergeInnerTop.
 Import ListNotations.
 Open Scope Z_scope.
@@ -60,3 +60,18 @@ Theorem ordered_merge_inner_as_found_refuted :
   ordered_merge_inner [1;1;2] [1;2] [[101;102;103]] [[601;602]] FArr [] [] false true.
 Proof. exact omi_found_refuted. Qed.
 Print Assumptions ordered_merge_inner_as_found_refuted.
+
+(* ---- key columns of two different integer dtypes (the class of seeded/C19-r3-1).  The theorems of Props/C19.v are
+   about keys that are mathematical integers (Z): they hold whatever dtypes store the two columns, PROVIDED the code
+   compares the values.  Presenting the right key in the left key's dtype is harmless exactly when it is lossless: *)
+Theorem key_cast_harmless_when_representable : forall a b R,
+  int_like a = true -> (forall v, In v R -> fits b v) -> cast_keys a b R = R.
+Proof. exact cast_keys_fits. Qed.
+Print Assumptions key_cast_harmless_when_representable.
+
+(* REFUTED otherwise: an int64 right key 2^32+7 cast to the int32 of the left key becomes 7 and takes the left rows 7. *)
+Theorem key_cast_to_the_other_dtype_refuted :
+  left_payload 0 [1;2;7;7;9] (cast_keys (DInt 64) (DInt 32) [1;2;4294967303;8589934592]) [11;22;33;44] <>
+  left_payload 0 [1;2;7;7;9] [1;2;4294967303;8589934592] [11;22;33;44].
+Proof. exact cast_keys_changes_the_join. Qed.
+Print Assumptions key_cast_to_the_other_dtype_refuted.
